@@ -13,6 +13,8 @@ C_CommitIds == {<<1, 0>>, <<2, 1>>}
 C_Users    == {"u1"}
 Cfg(mr, ms, ci, cc, tr) == [mr |-> mr, ms |-> ms, ci |-> ci, cc |-> cc, rb |-> -1, tr |-> tr]
 C_Cfgs     == {Cfg(2, -1, -1, -1, TRUE), Cfg(-1, 100, -1, -1, TRUE), Cfg(-1, -1, -1, -1, TRUE)}
+\* reopen under a different configuration: chunk limits AND cache limits differ between runs
+C_CfgsReopen == C_Cfgs \cup {Cfg(-1, -1, 0, -1, TRUE), Cfg(3, -1, 1, -1, TRUE)}
 \* limits 0 and 1 (every record closes its chunk), a size limit hit by the head alone, a record limit of 3
 C_CfgsWide == C_Cfgs \cup {Cfg(1, -1, -1, -1, TRUE), Cfg(0, -1, -1, -1, TRUE), Cfg(3, -1, -1, -1, TRUE), Cfg(-1, 10, -1, -1, TRUE)}
 =============================================================================
